@@ -2,11 +2,13 @@
 from __future__ import annotations
 
 import math
+import os
 from fractions import Fraction
 
 from ..core import frac
 from . import _call as K
 from . import _c01whole as W
+from . import _c01center as CT
 
 LEVEL = "proof"
 RULE = ("tables of 1..60 rows per call; rows generated from a known tumour copy number n in 0..12 "
@@ -44,6 +46,8 @@ def run_impl(case):
         return W.run_whole(case)
     if case.get("op") == "call_wrappers":
         return W.run_wrappers(case)
+    if case.get("op") == CT.OP:
+        return CT.run_impl(case)
     return K.run_impl(case)
 
 
@@ -92,6 +96,8 @@ def to_line(case, impl):
         return W.wrappers_to_line(case, impl)
     if case.get("op") == "cmd_call":
         return _cmd_to_line(case, impl)
+    if case.get("op") == CT.OP:
+        return CT.to_line(case, impl, _cmd_to_line)
     line = K.to_line(case, impl)
     if _pure_direct(case["in"]):
         line.pop("impl", None)  # judged by the harness (see ASSUMPTIONS); the driver's pure path is do_call's
@@ -119,6 +125,8 @@ def _round_slack(q):
 
 def judge(case, impl, resp):
     i = case["in"]
+    if case.get("op") == CT.OP:
+        return CT.judge(case, impl, resp, judge)
     if case.get("op") == "call_wrappers":
         return W.wrappers_judge(case, impl, resp)
     if case.get("op") == "do_call_whole":
@@ -440,11 +448,16 @@ def gen_cases(rng, tier):
     # the glue of `_cmd_call` (op `cmd_call`): purity validation, --center-at / --center precedence, sex handoff
     for k in range({"quick": 24, "thorough": 180, "search": 24}[tier]):
         cases.append(_cmd_case(rng, k))
+    # `--center <estimator>` (op `cmd_call_center`, round 5c): center_all composed into the command
+    for k in range({"quick": 24, "thorough": 144, "search": 24}[tier]):
+        cases.append(CT.center_case(rng, k, _table))
     # autosome-class rows under names that are not 1..22 (chrM, unplaced contigs, alternate haplotypes, names that only
     # contain an x / y): `ploidy` reference copies on the pure path (by name) and on the purity path (by mask) alike
     for _ in range({"quick": 24, "thorough": 200, "search": 24}[tier]):
         cases.append(K.other_names(rng, _table(rng, rng.choice([3, 16, 30]), force={
             "method": "clonal", "purity": rng.choice([None, 1.0, 0.5, 0.3]), "classes": ["auto", "auto", "auto", "x", "y"]})))
+    if os.environ.get("VERIF_C01_ONLY"):  # restricted runs for mutation tests: only the cases whose tag starts with this
+        cases = [c for c in cases if str(c.get("tag", "")).startswith(os.environ["VERIF_C01_ONLY"])]
     return cases
 
 
